@@ -298,6 +298,33 @@ def oneBlock (addr : Nat) (ops : List Op) : Function :=
 def straight (addr len : Nat) (ops : List Op) : BTR :=
   { addr := addr, length := len, instrs := [oneBlock addr ops], succs := [(addr + len, none)] }
 
+/-- `test dst, src`: flags of `dst & src`, nothing stored (`lhs`, `rhs` the operand expressions) -/
+def opsTest (lhs rhs : Expr) : Res (List Op) := do
+  let e ← Expr.mkBin .and lhs rhs
+  pure [.assign (scalar "ZF" 1) (← zfExpr e), .assign (scalar "SF" 1) (← sfExpr e),
+        .assign (scalar "CF" 1) (Expr.ec 0 1), .assign (scalar "OF" 1) (Expr.ec 0 1)]
+
+def opsTestRR (mode : Mode) (d s : GReg) : Res (List Op) := do
+  opsTest (← regGet mode d) (← regGet mode s)
+
+def opsTestRI (mode : Mode) (d : GReg) (v bytes : Nat) : Res (List Op) := do
+  if 8 * bytes = d.bits then opsTest (← regGet mode d) (Expr.ec v (8 * bytes)) else .err .other
+
+/-- `xchg a, b` on registers: `tmp := a; a := b; b := tmp` -/
+def opsXchg (mode : Mode) (addr : Nat) (a b : GReg) : Res (List Op) := do
+  let lhs ← regGet mode a
+  let rhs ← regGet mode b
+  let t := temp addr 0 lhs.bits
+  pure [.assign t lhs, ← regSet mode a rhs, ← regSet mode b (.scalar t)]
+
+/-- `movzx` / `movsx` / `movsxd` from a narrower register -/
+def opsExtend (mode : Mode) (signed : Bool) (d s : GReg) : Res (List Op) := do
+  let src ← regGet mode s
+  if src.bits < d.bits then do
+    let v ← Expr.mkExt (if signed then .sext else .zext) d.bits src
+    pure [← regSet mode d v]
+  else .err .other
+
 /-! ### graphs with a conditional: cmovcc and jcc -/
 
 def blockOf (addr idx : Nat) (ops : List Op) : Block :=
@@ -366,6 +393,10 @@ def liftIns (i : Ins) : Option (Res BTR) :=
   else match i.ops with
   | [.reg d, .reg s] =>
     if aluMnemonics.contains i.mnem ∧ d.bits = s.bits then some (liftRR i.mode i.mnem i.addr i.len d s)
+    else if i.mnem = "test" ∧ d.bits = s.bits then some (wrap i.addr i.len (opsTestRR i.mode d s))
+    else if i.mnem = "xchg" ∧ d.bits = s.bits then some (wrap i.addr i.len (opsXchg i.mode i.addr d s))
+    else if i.mnem = "movzx" ∧ s.bits < d.bits then some (wrap i.addr i.len (opsExtend i.mode false d s))
+    else if (i.mnem = "movsx" ∨ i.mnem = "movsxd") ∧ s.bits < d.bits then some (wrap i.addr i.len (opsExtend i.mode true d s))
     else match splitCc i.mnem with
       | some ("cmov", c) => if d.bits = s.bits then some (liftCmov i.mode c i.addr i.len d s) else none
       | _ => none
@@ -374,7 +405,9 @@ def liftIns (i : Ins) : Option (Res BTR) :=
     | some ("j", c) => some (liftJcc c i.addr i.len t)
     | _ => none
   | [.reg d, .imm v bytes] =>
-    if aluMnemonics.contains i.mnem ∧ 8 * bytes = d.bits then some (liftRI i.mode i.mnem i.addr i.len d v bytes) else none
+    if aluMnemonics.contains i.mnem ∧ 8 * bytes = d.bits then some (liftRI i.mode i.mnem i.addr i.len d v bytes)
+    else if i.mnem = "test" ∧ 8 * bytes = d.bits then some (wrap i.addr i.len (opsTestRI i.mode d v bytes))
+    else none
   | [.reg d] =>
     if unMnemonics.contains i.mnem then some (liftUn i.mode i.mnem i.addr i.len d)
     else match splitCc i.mnem with
